@@ -46,8 +46,12 @@ package nat
 //@   ensures err == nil ==> result.sep && result.ann && result.ablk && result.adisj && result.pmax && result.pcnt && result.ids && result.idnext
 //@   ensures err == nil ==> card(result.allocations) == 0 && len(result.pool) == 0
 
+// C06: subscriber_nat is looked up with ip->saddr as loaded from the frame and
+// block.public_ip is written into ip->saddr as it is (bpf/nat44.c), so the word
+// must carry the address bytes in network order in memory (native marshalling).
 //@ func ipToKey
 //@   modifies nothing
+//@   ensures len(ip) == 4 ==> result == ip[0] + 256*ip[1] + 65536*ip[2] + 16777216*ip[3]
 
 //@ func log2
 //@   modifies nothing
